@@ -1331,3 +1331,172 @@ class XmlProcessTreeAt(XmlProcessTree):
         e = SymElem('ccg')
         e.kids.append(enc_xml(I)(t.e, 0))
         return e
+
+
+# ============================================================================ depccg/tree.py: leaves / __len__ / tokens (the contracts the printers use: len(tree), tree.tokens)
+class LeafList:
+    """tree.leaves through its contract: the leaves of the view in order"""
+    def __init__(self, t):
+        self.t = t
+
+    def length(self, I, node):
+        return Z(nleaves(self.t))
+
+    def comprehension(self, I, e, env, module):
+        import ast
+        g = e.generators[0]
+        # recognised: [leaf.children[0] for leaf in self.leaves]  (the token of every leaf)
+        if g.ifs or not isinstance(g.target, ast.Name) or ast.unparse(e.elt) != f'{g.target.id}.children[0]':
+            raise CheckerError('comprehension over tree.leaves other than [leaf.children[0] for leaf in leaves]')
+        return SymTokens(self.t)
+
+
+def _append_value(I, v):
+    if isinstance(v, SymTree):
+        return tag(v.e)
+    return I.ex(v)
+
+
+def _symintlist_getattr(self, I, name, node):
+    if name == 'append':
+        def app(I, args, kwargs, node):
+            self.arr = z3.Store(self.arr, self.n, _append_value(I, args[0]))
+            self.n = self.n + 1
+            return None
+        return _Method(app)
+    raise CheckerError(f'list.{name} on a symbolic list')
+
+
+SymIntList.getattr = _symintlist_getattr
+TREL = 'depccg/tree.py'
+
+
+def leaves_clauses(arr0, n0, arr1, n1, t):
+    i, j = z3.Int('i!lv'), z3.Int('j!lv')
+    k = nleaves(t)
+    return [('length', z3.And(k >= 1, n1 == n0 + k)),
+            ('frame', z3.ForAll([j], z3.Implies(z3.And(j >= 0, j < n0), z3.Select(arr1, j) == z3.Select(arr0, j)))),
+            ('leaves-in-order', z3.ForAll([i], z3.Implies(z3.And(i >= n0, i < n0 + k), z3.Select(arr1, i) == leaf_tag(t, i - n0))))]
+
+
+class LeavesRec(Contract):
+    rel, qualname = TREL, 'Tree.leaves.rec'
+
+    def closure_env(self, I, f):
+        m = I.load_module('depccg.tree')
+        env = Env(m.env)
+        env.set('rec', f)
+        self._env = env
+        return env
+
+    def cases(self, I):
+        def build(I):
+            t = z3.Const('node', T)
+            arr, n = z3.Const('result0', z3.ArraySort(I_, I_)), z3.Int('len0')
+            lst = SymIntList(arr, n)
+            self._env.set('result', lst)
+            self._pre = (arr, n, t, lst)
+            unfold_leaf_tag(I, t)
+            return [SymTree(t)], {}, [n >= 0], None
+        yield Case('any-node', build)
+
+    def post(self, I, case, args, result):
+        arr0, n0, t, lst = self._pre
+        return leaves_clauses(arr0, n0, lst.arr, lst.n, t)
+
+    def apply(self, I, args, kwargs, node):
+        f = I.callee
+        if len(args) != 1 or not isinstance(args[0], SymTree):
+            raise CheckerError('rec called with something that is not a tree view')
+        t = args[0].e
+        lst = f.env.lookup('result')
+        if isinstance(lst, list):
+            if lst:
+                raise CheckerError('rec called with a non-empty concrete list')
+            lst = SymIntList(z3.K(I_, z3.IntVal(0)), z3.IntVal(0))
+            f.env.set('result', lst)
+        arr0, n0 = lst.arr, lst.n
+        arr1 = I.fresh('result', z3.ArraySort(I_, I_))
+        lst.arr, lst.n = arr1, n0 + nleaves(t)
+        I.ctx.assume(z3.And([g for _, g in leaves_clauses(arr0, n0, arr1, lst.n, t)]))
+        return None
+
+
+class TreeLeaves(Contract):
+    rel, qualname = TREL, 'Tree.leaves'
+
+    def cases(self, I):
+        def build(I):
+            t = z3.Const('tree', T)
+            self._t = t
+            return [SymTree(t)], {}, [], None
+        yield Case('any-tree', build)
+
+    def post(self, I, case, args, result):
+        t = self._t
+        if not isinstance(result, SymIntList):
+            return [('list', z3.BoolVal(False))]
+        i = z3.Int('i!tl')
+        return [('length', result.n == nleaves(t)),
+                ('leaves-in-order', z3.ForAll([i], z3.Implies(z3.And(i >= 0, i < nleaves(t)), z3.Select(result.arr, i) == leaf_tag(t, i))))]
+
+
+class TreeLen(Contract):
+    rel, qualname = TREL, 'Tree.__len__'
+
+    def cases(self, I):
+        def build(I):
+            t = z3.Const('tree', T)
+            self._t = t
+            return [SymTree(t)], {}, [], None
+        yield Case('any-tree', build)
+
+    def post(self, I, case, args, result):
+        return [('number-of-words', I.ex(result) == nleaves(self._t))]
+
+
+class TreeTokens(Contract):
+    rel, qualname = TREL, 'Tree.tokens'
+
+    def cases(self, I):
+        def build(I):
+            t = z3.Const('tree', T)
+            self._t = t
+            return [SymTree(t)], {}, [], None
+        yield Case('any-tree', build)
+
+    def post(self, I, case, args, result):
+        return [('tokens-of-the-leaves-in-order', z3.BoolVal(isinstance(result, SymTokens)) if not isinstance(result, SymTokens) else result.tree == self._t)]
+
+
+_prev_tree_getattr = SymTree.getattr
+
+
+def _tree_getattr2(self, I, name, node):
+    if name == 'leaves':
+        # inside the verification of Tree.leaves itself the real body runs; everywhere else the (proved) contract
+        if I.target is not None and I.target.qualname == 'Tree.leaves' and I.depth <= 1:
+            raise CheckerError('Tree.leaves reads self.leaves')
+        return LeafList(self.e)
+    return _prev_tree_getattr(self, I, name, node)
+
+
+SymTree.getattr = _tree_getattr2
+
+
+def tree_py_contracts():
+    return [LeavesRec(), TreeLeaves(), TreeLen(), TreeTokens()]
+
+
+def tree_py_records(I, prop):
+    """obligations of the tree.py contracts the printers use (len(tree) = number of words; tree.tokens / tree.leaves in order)"""
+    from vc.engine import verify_contract
+    cs = tree_py_contracts()
+    I.contracts[cs[0].name] = cs[0]
+    recs = []
+    for c in cs:
+        r, _ = verify_contract(I, c, prop)
+        for x in r:
+            x['witness'] = dict(function=c.name)
+        recs.extend(r)
+    return recs
